@@ -34,7 +34,14 @@ func u4(x int) int {
 	return x*7 + 7004
 }
 
-// CallU4 lets the probe observe the namesake of the main package's u4 (never mocked).
+// U4 hands the unexported namesake out as a value (the probe needs its address and type); it is target 19 of the corpus,
+// mocked through `b.Pkg("<this package>").ExportFunc("u4")` only.
+var U4 = u4
+
+// PkgPath is this package's import path, as Builder.Pkg wants it.
+const PkgPath = "github.com/tencent/goom/internal/zzverif/c02x/c02"
+
+// CallU4 lets the probe observe the namesake of the main package's u4.
 //
 //go:noinline
 func CallU4(x int) int { return u4(x) }
